@@ -251,21 +251,17 @@ COVERAGE_ACCESSORS = ["Coverage.filtered", "Coverage.total", "Coverage.percentag
 ACCESSORS = GENE_ACCESSORS + SOLUTION_ACCESSORS + COVERAGE_ACCESSORS
 
 
+def mkop(k, a="", g=(), n=0):
+    return {"k": k, "a": a, "g": list(g), "n": n}
+
+
 def op_key(op):
+    """Readable text of an operation record [k, a, g, n] (History.tla)."""
     k = op["k"]
-    if k == "Genotype":
-        return f"Genotype({op['g']},{op['mode']},{op['s']})"
-    if k == "GenotypeMulti":
-        return f"GenotypeMulti({''.join(op['gs'])},{op['mode']},{op['s']})"
-    if k in ("Stage", "Write", "Query"):
-        return f"{k}({op['a']},{op['g']})"
-    if k in ("Accessor", "Store"):
-        return f"{k}({op['a']})"
     if k == "FreshProcess":
-        return f"FreshProcess({op['seed']})"
-    if k == "Load":
-        return f"Load({op['a']},{op['g']})"
-    return k
+        return f"FreshProcess({op['n']})"
+    gs = "".join(op["g"])
+    return f"{k}({op['a']}{',' if op['a'] and gs else ''}{gs})"
 
 
 class _NoSolutions(Exception):
@@ -300,15 +296,16 @@ class World:
     def _emit(self, op, value, raised="", per=(), extra=None):
         db, ev = self.snapshot()
         dg = value_digests(value)
-        row = {"tid": self.tid, "i": self.i, "k": op["k"], "key": op_key(op), "seed": self.seed, "ep": self.epoch,
-               "res": dg["res"], "resS": dg["resS"], "sc": dg["sc"], "raised": raised,
+        row = {"tid": self.tid, "i": self.i, "op": {"k": op["k"], "a": op.get("a", ""), "g": list(op.get("g", [])), "n": op.get("n", 0)},
+               "seed": self.seed, "ep": self.epoch, "res": dg["res"], "resS": dg["resS"], "sc": dg["sc"], "raised": raised,
                "db": dict({"_": ""}, **{g: x["all"] for g, x in db.items()}),
                "ev": dict({"_": ""}, **{g: x["all"] for g, x in ev.items()}),
-               "per": [dict(key=k, **value_digests(v)) for k, v in per],
-               "inner": list(self._inner)}
+               "per": [dict(g=g, err=bool(v["s"].get("error")) if isinstance(v["s"], dict) else False, **value_digests(v)) for g, v in per],
+               "inner": [{k: x[k] for k in ("t", "g", "a", "b", "cmp")} for x in self._inner]}
         if extra:
             row.update(extra)
-        self.values[self.i] = {"op": op, "value": value, "per": {k: v for k, v in per}, "raised": raised,
+        self.values[self.i] = {"op": op, "key": op_key(op), "value": value, "per": {g: v for g, v in per}, "raised": raised,
+                               "inner": list(self._inner),
                                "db_parts": {g: x["parts"] for g, x in db.items()}, "ev_parts": {g: x["parts"] for g, x in ev.items()}}
         self._inner = []
         self.rows.append(row)
@@ -323,7 +320,7 @@ class World:
 
         gs = self.spec["genes"][g]
         self.gene[g] = Gene(gs["yml"], genome=gs["genome"])
-        self._emit({"k": "Load", "a": "gene", "g": g}, mk_value("loaded"))
+        self._emit(mkop("Load", "gene", [g]), mk_value("loaded"))
         return self.gene[g]
 
     def _syn_tables(self, g):
@@ -370,7 +367,7 @@ class World:
             self.cov[g] = cov
             self.syn = getattr(self, "syn", {})
             self.syn[g] = {"bag": bag, "struct": struct}
-        self._emit({"k": "Load", "a": "sample", "g": g}, mk_value("loaded"))
+        self._emit(mkop("Load", "sample", [g]), mk_value("loaded"))
         return self.cov[g]
 
     def ensure_chain(self, g, upto="minor"):
@@ -378,7 +375,7 @@ class World:
         lv = self.live.setdefault(g, {})
         for st in ("cn", "major", "minor"):
             if st not in lv:
-                self.do({"k": "Stage", "a": st, "g": g}, keep=True)
+                self.do(mkop("Stage", st, [g]), keep=True)
             if st == upto:
                 break
         return lv
@@ -392,19 +389,21 @@ class World:
         try:
             with aldyenv.quiet_stderr():
                 if k == "Genotype":
-                    value, per = self._genotype([op["g"]], op["mode"], op["s"])
+                    mode, smp = op["a"].split("/")
+                    value, per, _ = self._genotype(list(op["g"]), mode, smp)
                     value = per[0][1] if per else value
                     per = ()
                 elif k == "GenotypeMulti":
-                    value, per = self._genotype(list(op["gs"]), op["mode"], op["s"])
+                    mode, smp = op["a"].split("/")
+                    value, per, extra = self._genotype(list(op["g"]), mode, smp)
                 elif k == "Stage":
-                    value = self._stage(op["a"], op["g"], keep)
+                    value = self._stage(op["a"], op["g"][0], keep)
                 elif k == "Accessor":
-                    value = self._accessor(op["a"])
+                    value = self._accessor(op["a"], op["g"])
                 elif k == "Write":
-                    value = self._write(op["a"], op["g"])
+                    value = self._write(op["a"], op["g"][0])
                 elif k == "Query":
-                    value = self._query(op["a"], op["g"])
+                    value = self._query(op["a"], op["g"][0])
                 elif k == "Store":
                     value = self._store(op["a"])
                 else:
@@ -504,14 +503,14 @@ class World:
                 scores += sc
             per.append((g, mk_value({"error": "", "etype": "", "sols": snaps if g in sols_by else None}, scores,
                                     "".join(by_gene_text.get(g, [])))))
-        keys = [f"Genotype({g},{mode},{s})" for g in gs]
         # the whole-run value: order of pieces, nothing but the pieces, which genes reported
         order_ok = [lab for lab, _ in [(name2lab.get(nm, nm), p) for nm, p in pieces]]
         whole = mk_value({"genes": gs, "pieces": order_ok, "reported": sorted(sols_by), "failed": sorted(failed),
                           "concat_ok": "".join(p for _, p in pieces) == r["output"],
                           "result_keys": sorted(path2lab.get(k, k) for k in (r["result"] is not None and self._result_keys(r)) or [])},
                          (), r["output"] if len(r["output"]) < 200000 else _sha(r["output"]))
-        return whole, list(zip(keys, [v for _, v in per]))
+        multi = {"multi": {"pieces": order_ok, "reported": sorted(sols_by), "concat": "".join(p for _, p in pieces) == r["output"]}}
+        return whole, per, multi
 
     @staticmethod
     def _result_keys(r):
@@ -588,7 +587,9 @@ class World:
 
         gene = self.ensure_gene(g)
         arg = ""
-        if q == "cn":
+        if q == "all":
+            arg = ""
+        elif q == "cn":
             arg = sorted(gene.cn_configs)[-1]
         elif q == "major":
             arg = sorted(a for a in gene.alleles if a not in gene.cn_configs)[0] if any(a not in gene.cn_configs for a in gene.alleles) else sorted(gene.alleles)[0]
@@ -617,13 +618,13 @@ class World:
         return mk_value({"store": what, "had_entries": n > 0})
 
     # ------------------------------------------------------------------ accessors (applied to the live objects of BOTH genes)
-    def _accessor(self, a):
-        out = {}
-        for g in sorted(self.spec["genes"]):
-            if g == "C":
-                continue
-            out[g] = self._accessor_one(a, g)
-        return mk_value(out)
+    def _accessor(self, a, gs):
+        for g in gs:  # every load / stage the accessor needs happens (and is recorded) BEFORE the accessor runs
+            self.ensure_gene(g)
+            if a not in GENE_ACCESSORS:
+                self.ensure_cov(g)
+                self.ensure_chain(g)
+        return mk_value({g: self._accessor_one(a, g) for g in gs})
 
     def _probe_sites(self, gene):
         from aldy.gene import Mutation
@@ -782,21 +783,115 @@ class World:
                 self.rows, self.i = rows, i
                 self.cov[g] = live[g]
         db, ev = self.snapshot()
-        row = {"tid": self.tid, "i": self.i, "k": "Reload", "key": "Reload", "seed": self.seed, "ep": self.epoch, "res": "", "resS": "", "sc": [],
+        row = {"tid": self.tid, "i": self.i, "op": mkop("Reload"), "seed": self.seed, "ep": self.epoch, "res": "", "resS": "", "sc": [],
                "raised": "", "db": dict({"_": ""}, **{g: x["all"] for g, x in db.items()}),
                "ev": dict({"_": ""}, **{g: x["all"] for g, x in ev.items()}), "per": [], "inner": [], "fresh_db": fresh, "fresh_ev": fev}
-        self.values[self.i] = {"op": {"k": "Reload"}, "value": None}
+        self.values[self.i] = {"op": mkop("Reload"), "key": "Reload", "value": None, "db_parts": {g: x["parts"] for g, x in db.items()},
+                               "ev_parts": {g: x["parts"] for g, x in ev.items()}}
         self.rows.append(row)
         self.i += 1
 
 
 def run_segment(spec, ops, tid, start_index=0, epoch=0, reload_cov=False, hash_seed=None):
-    """Execute ops (a list of operation records WITHOUT FreshProcess) in this process; returns (rows, values, epoch)."""
+    """Execute ops (operation records WITHOUT FreshProcess) in this process; returns (rows, values, epoch)."""
     w = World(spec, tid, hash_seed, start_index, epoch)
     for op in ops:
         w.do(op)
     w.reload_check(reload_cov)
     return w.rows, w.values, w.epoch
+
+
+def _in_fork(fn, *args):
+    """Run fn(*args) in a forked child of this process (pristine interpreter state of the parent) and return its
+    picklable result; an exception in the child is re-raised here."""
+    import pickle
+
+    r, wfd = os.pipe()
+    pid = os.fork()
+    if pid == 0:
+        code = 0
+        try:
+            os.close(r)
+            try:
+                out = (True, fn(*args))
+            except BaseException as ex:  # noqa
+                import traceback
+
+                out = (False, f"{type(ex).__name__}: {ex}\n{traceback.format_exc()}")
+            with os.fdopen(wfd, "wb") as f:
+                pickle.dump(out, f, protocol=4)
+        except BaseException:
+            code = 1
+        finally:
+            os._exit(code)
+    os.close(wfd)
+    with os.fdopen(r, "rb") as f:
+        data = f.read()
+    os.waitpid(pid, 0)
+    if not data:
+        raise RuntimeError("history child died without a result")
+    ok, out = pickle.loads(data)
+    if not ok:
+        raise RuntimeError("history child failed: " + out)
+    return out
+
+
+def _in_new_interpreter(job, hash_seed):
+    """FreshProcess(seed): the segment runs in a NEW interpreter with PYTHONHASHSEED = seed."""
+    import subprocess
+    import tempfile
+
+    from . import tlc
+
+    d = tempfile.mkdtemp(prefix="c14job_", dir=tlc.scratch())
+    jp, op_ = os.path.join(d, "job.json"), os.path.join(d, "out.json")
+    with open(jp, "w") as f:
+        json.dump(job, f)
+    env = dict(os.environ, PYTHONHASHSEED=str(hash_seed), ALDY_SRC=aldyenv.ALDY_SRC)
+    p = subprocess.run([sys.executable, "-W", "ignore", "-m", "harness.c14_world", jp, op_], cwd=tlc.VERIF, env=env,
+                       stdout=subprocess.PIPE, stderr=subprocess.PIPE, text=True, timeout=1800)
+    if p.returncode != 0 or not os.path.exists(op_):
+        raise RuntimeError(f"FreshProcess worker failed (rc={p.returncode}): {p.stderr[-1500:]}")
+    with open(op_) as f:
+        out = json.load(f)
+    for fn in (jp, op_):
+        os.unlink(fn)
+    os.rmdir(d)
+    return out["rows"], {int(k): v for k, v in out["values"].items()}, out["epoch"]
+
+
+def run_history(spec, ops, tid, reload_cov=False, with_values=False, first_in_fork=True):
+    """One history = operation records incl. FreshProcess.  Segment 0 runs in a forked child of the caller (hash seed of
+    the harness, normally 0), every FreshProcess(seed) starts a new interpreter.  Returns (rows, values)."""
+    segs, cur, seeds = [], [], [None]
+    for op in ops:
+        if op["k"] == "FreshProcess":
+            segs.append(cur)
+            cur = []
+            seeds.append(op["n"])
+        else:
+            cur.append(op)
+    segs.append(cur)
+    rows, values, idx, epoch = [], {}, 0, 0
+    base_seed = int(os.environ.get("PYTHONHASHSEED", "0") or 0)
+    for si, (seg, sd) in enumerate(zip(segs, seeds)):
+        if si > 0:
+            fp = mkop("FreshProcess", "", [], sd)
+            rows.append({"tid": tid, "i": idx, "op": fp, "seed": sd, "ep": epoch, "res": "", "resS": "", "sc": [], "raised": "",
+                         "db": {"_": ""}, "ev": {"_": ""}, "per": [], "inner": []})
+            values[idx] = {"op": fp, "key": op_key(fp), "value": None}
+            idx += 1
+            r, v, epoch = _in_new_interpreter({"what": "segment", "spec": spec, "ops": seg, "tid": tid, "start_index": idx,
+                                               "epoch": epoch, "reload_cov": reload_cov}, sd)
+        elif first_in_fork:
+            r, v, epoch = _in_fork(run_segment, spec, seg, tid, idx, epoch, reload_cov, base_seed)
+        else:
+            r, v, epoch = run_segment(spec, seg, tid, idx, epoch, reload_cov, base_seed)
+        rows += r
+        if with_values:
+            values.update(v)
+        idx += len(r)
+    return rows, values
 
 
 # =========================================================================== RefinementIndependent families
@@ -815,7 +910,7 @@ def refine_family(fam):
 
     gene = genes.load(fam["gene"], fam["genome"])
     table = {int(p): v for p, v in fam["table"].items()}
-    rows, info = [], {}
+    rows, meta = [], {}
     pool = fam["pool"]
     db0 = D.gene_digest(gene)
 
@@ -850,22 +945,28 @@ def refine_family(fam):
             res, raised = [], f"{type(ex).__name__}: {ex}"[:200]
         mins = min(pool[j][2] for j in L)
         dbx, evx = D.gene_digest(gene), D.coverage_digest(cov)
+        cur = None
         for pos, j in enumerate(L):
             mine = [r for r in res if r.major_solution is sols[pos]]
             carried = pool[j][2] - mins
             copies = sorted([[sa.major, sa.minor, sorted(str(m) for m in sa.added), sorted(str(m) for m in sa.missing)] for sa in r.solution]
                             for r in mine)
-            v = mk_value({"cand": j, "refinement": copies}, [r.score - carried for r in mine])
+            v = mk_value({"cand": j, "refinement": copies}, [round(r.score - carried, 9) + 0.0 for r in mine])
             dg = value_digests(v)
             rid = n
             n += 1
-            rows.append({"tid": fam["fid"], "i": rid, "k": "Refine", "key": f"cand{j}", "seed": 0, "ep": 0, "res": dg["res"], "resS": dg["resS"],
-                         "sc": dg["sc"], "raised": raised, "db": {"_": "", "A": dbx["all"]}, "ev": {"_": "", "A": evx["all"]}, "per": [],
-                         "inner": [{"t": "db", "g": "A", "a": db0["all"], "b": dbx["all"], "cmp": False, "parts": D.diff_parts(db0, dbx)},
-                                   {"t": "ev", "g": "A", "a": ev0["all"], "b": evx["all"], "cmp": False, "parts": D.diff_parts(ev0, evx)}],
-                         "univ": universe(L), "laststruct": ",".join(sorted(pool[L[-1]][0])), "L": list(L)})
-            info[rid] = {"list": [pool[x][:2] for x in L], "cand": pool[j][:2], "value": v}
-    return rows, info
+            part = dict(g=f"c{j}", err=False, **dg)
+            if cur is None:
+                cur = {"tid": fam["fid"], "i": rid, "op": mkop("Refine", "", [f"c{x}" for x in L]), "seed": 0, "ep": 0, "res": "", "resS": "",
+                       "sc": [], "raised": raised, "db": {"_": "", "A": dbx["all"]}, "ev": {"_": "", "A": evx["all"]}, "per": [],
+                       "inner": [{"t": "db", "g": "A", "a": db0["all"], "b": dbx["all"], "cmp": False},
+                                 {"t": "ev", "g": "A", "a": ev0["all"], "b": evx["all"], "cmp": False}]}
+                meta[rid] = {"L": list(L), "univ": universe(L), "laststruct": ",".join(sorted(pool[L[-1]][0])),
+                             "db_parts": D.diff_parts(db0, dbx), "ev_parts": D.diff_parts(ev0, evx), "parts": []}
+                rows.append(cur)
+            cur["per"].append(part)
+            meta[cur["i"]]["parts"].append({"cand": j, "value": v})
+    return rows, meta
 
 
 # =========================================================================== worker entry (FreshProcess segments)
